@@ -2,4 +2,5 @@ SPECIFICATION Spec
 CONSTANTS
   SharedField = "none"
   MemoBound = TRUE
+  SampleKinds = FALSE
 CHECK_DEADLOCK FALSE
